@@ -23,16 +23,16 @@ Local Open Scope N_scope.
 Theorem C18_output_is_render :
   forall (code : Type) (render : code -> data -> N -> rres) (scope_of : N -> option bool) (iv_res iv_opt : N)
          (w0 : world code) (ss : list (step code)) (t : tmpl code) (w' : world code) (r : pres),
-    let w := final render scope_of iv_res iv_opt w0 ss in
-    w_tmpl w = Some t -> t_del t = false -> pass render scope_of iv_res iv_opt w = (w', r) ->
+    let w := final render scope_of ns_escalation iv_res iv_opt w0 ss in
+    w_tmpl w = Some t -> t_del t = false -> pass render scope_of ns_escalation iv_res iv_opt w = (w', r) ->
     forall k d, In (k, d) (target_writes (p_evs r)) ->
     exists cfg retry k0 orefs,
       scan scope_of (pfbad scope_of (t_ns t)) (w_store w) (t_ns t) (t_sources t) [] false = ScOk cfg retry /\
       render (t_code t) cfg (w_env w) = RObj k0 d orefs /\
-      pf_violation scope_of (t_ns t) k0 orefs = false /\
+      pf_violation scope_of ns_escalation (t_ns t) k0 orefs = false /\
       k = eff_key (t_ns t) k0 /\ target_writes (p_evs r) = [(k, d)].
 Proof. exact (fun code render scope_of iv_res iv_opt w0 ss =>
-                @output_is_render code render scope_of iv_res iv_opt (final render scope_of iv_res iv_opt w0 ss)). Qed.
+                @output_is_render code render scope_of iv_res iv_opt (final render scope_of ns_escalation iv_res iv_opt w0 ss)). Qed.
 Print Assumptions C18_output_is_render.
 
 (** ... and conversely, when every source is readable and the rendered object passes the admission
@@ -40,14 +40,14 @@ Print Assumptions C18_output_is_render.
 Theorem C18_render_is_output :
   forall (code : Type) (render : code -> data -> N -> rres) (scope_of : N -> option bool) (iv_res iv_opt : N)
          (w0 : world code) (ss : list (step code)) (t : tmpl code) (w' : world code) (r : pres),
-    let w := final render scope_of iv_res iv_opt w0 ss in
-    w_tmpl w = Some t -> t_del t = false -> pass render scope_of iv_res iv_opt w = (w', r) ->
+    let w := final render scope_of ns_escalation iv_res iv_opt w0 ss in
+    w_tmpl w = Some t -> t_del t = false -> pass render scope_of ns_escalation iv_res iv_opt w = (w', r) ->
     forall cfg retry k0 d orefs,
     scan scope_of (pfbad scope_of (t_ns t)) (w_store w) (t_ns t) (t_sources t) [] false = ScOk cfg retry ->
-    render (t_code t) cfg (w_env w) = RObj k0 d orefs -> pf_violation scope_of (t_ns t) k0 orefs = false ->
+    render (t_code t) cfg (w_env w) = RObj k0 d orefs -> pf_violation scope_of ns_escalation (t_ns t) k0 orefs = false ->
     p_err r <> 0 \/ target_writes (p_evs r) = [(eff_key (t_ns t) k0, d)].
 Proof. exact (fun code render scope_of iv_res iv_opt w0 ss =>
-                @render_is_output code render scope_of iv_res iv_opt (final render scope_of iv_res iv_opt w0 ss)). Qed.
+                @render_is_output code render scope_of iv_res iv_opt (final render scope_of ns_escalation iv_res iv_opt w0 ss)). Qed.
 Print Assumptions C18_render_is_output.
 
 (** required_missing_no_write: some required source does not exist => nothing is written, no error is
@@ -55,12 +55,12 @@ Print Assumptions C18_render_is_output.
 Theorem C18_required_missing_no_write :
   forall (code : Type) (render : code -> data -> N -> rres) (scope_of : N -> option bool) (iv_res iv_opt : N)
          (w0 : world code) (ss : list (step code)) (t : tmpl code) (w' : world code) (r : pres),
-    let w := final render scope_of iv_res iv_opt w0 ss in
-    w_tmpl w = Some t -> t_del t = false -> pass render scope_of iv_res iv_opt w = (w', r) ->
+    let w := final render scope_of ns_escalation iv_res iv_opt w0 ss in
+    w_tmpl w = Some t -> t_del t = false -> pass render scope_of ns_escalation iv_res iv_opt w = (w', r) ->
     (exists s, In s (t_sources t) /\ s_opt s = false /\ lookup (nkey scope_of (src_key (t_ns t) s)) (w_store w) = None) ->
     target_writes (p_evs r) = [] /\ p_err r = 0 /\ exists t', w_tmpl w' = Some t' /\ t_invalid t' = 1.
 Proof. exact (fun code render scope_of iv_res iv_opt w0 ss =>
-                @required_missing_no_write code render scope_of iv_res iv_opt (final render scope_of iv_res iv_opt w0 ss)). Qed.
+                @required_missing_no_write code render scope_of iv_res iv_opt (final render scope_of ns_escalation iv_res iv_opt w0 ss)). Qed.
 Print Assumptions C18_required_missing_no_write.
 
 (** ... and when the missing required source is what stops the collection (every earlier reference was
@@ -68,13 +68,13 @@ Print Assumptions C18_required_missing_no_write.
 Theorem C18_required_missing_requeue :
   forall (code : Type) (render : code -> data -> N -> rres) (scope_of : N -> option bool) (iv_res iv_opt : N)
          (w0 : world code) (ss : list (step code)) (t : tmpl code) (w' : world code) (r : pres),
-    let w := final render scope_of iv_res iv_opt w0 ss in
-    w_tmpl w = Some t -> t_del t = false -> pass render scope_of iv_res iv_opt w = (w', r) ->
+    let w := final render scope_of ns_escalation iv_res iv_opt w0 ss in
+    w_tmpl w = Some t -> t_del t = false -> pass render scope_of ns_escalation iv_res iv_opt w = (w', r) ->
     scan scope_of (pfbad scope_of (t_ns t)) (w_store w) (t_ns t) (t_sources t) [] false = ScMissing ->
     p_requeue r = iv_res /\ target_writes (p_evs r) = [] /\ p_err r = 0 /\
     exists t', w_tmpl w' = Some t' /\ t_invalid t' = 1.
 Proof. exact (fun code render scope_of iv_res iv_opt w0 ss =>
-                @required_missing_requeue code render scope_of iv_res iv_opt (final render scope_of iv_res iv_opt w0 ss)). Qed.
+                @required_missing_requeue code render scope_of iv_res iv_opt (final render scope_of ns_escalation iv_res iv_opt w0 ss)). Qed.
 Print Assumptions C18_required_missing_requeue.
 
 (** optional_missing_retry: all references readable but some optional source missing (the collection
@@ -83,44 +83,44 @@ Print Assumptions C18_required_missing_requeue.
 Theorem C18_optional_missing_retry :
   forall (code : Type) (render : code -> data -> N -> rres) (scope_of : N -> option bool) (iv_res iv_opt : N)
          (w0 : world code) (ss : list (step code)) (t : tmpl code) (w' : world code) (r : pres),
-    let w := final render scope_of iv_res iv_opt w0 ss in
-    w_tmpl w = Some t -> t_del t = false -> pass render scope_of iv_res iv_opt w = (w', r) ->
+    let w := final render scope_of ns_escalation iv_res iv_opt w0 ss in
+    w_tmpl w = Some t -> t_del t = false -> pass render scope_of ns_escalation iv_res iv_opt w = (w', r) ->
     forall cfg,
     scan scope_of (pfbad scope_of (t_ns t)) (w_store w) (t_ns t) (t_sources t) [] false = ScOk cfg true ->
     p_requeue r = iv_opt /\
     (exists s, In s (t_sources t) /\ s_opt s = true /\ lookup (nkey scope_of (src_key (t_ns t) s)) (w_store w) = None) /\
-    (forall k0 d orefs, render (t_code t) cfg (w_env w) = RObj k0 d orefs -> pf_violation scope_of (t_ns t) k0 orefs = false ->
+    (forall k0 d orefs, render (t_code t) cfg (w_env w) = RObj k0 d orefs -> pf_violation scope_of ns_escalation (t_ns t) k0 orefs = false ->
        p_err r <> 0 \/ target_writes (p_evs r) = [(eff_key (t_ns t) k0, d)]).
 Proof. exact (fun code render scope_of iv_res iv_opt w0 ss =>
-                @optional_missing_retry code render scope_of iv_res iv_opt (final render scope_of iv_res iv_opt w0 ss)). Qed.
+                @optional_missing_retry code render scope_of iv_res iv_opt (final render scope_of ns_escalation iv_res iv_opt w0 ss)). Qed.
 Print Assumptions C18_optional_missing_retry.
 
 (** unparsable_no_write: the template does not parse / execute => nothing written, Invalid=True/TemplateError. *)
 Theorem C18_unparsable_no_write :
   forall (code : Type) (render : code -> data -> N -> rres) (scope_of : N -> option bool) (iv_res iv_opt : N)
          (w0 : world code) (ss : list (step code)) (t : tmpl code) (w' : world code) (r : pres),
-    let w := final render scope_of iv_res iv_opt w0 ss in
-    w_tmpl w = Some t -> t_del t = false -> pass render scope_of iv_res iv_opt w = (w', r) ->
+    let w := final render scope_of ns_escalation iv_res iv_opt w0 ss in
+    w_tmpl w = Some t -> t_del t = false -> pass render scope_of ns_escalation iv_res iv_opt w = (w', r) ->
     forall cfg retry,
     scan scope_of (pfbad scope_of (t_ns t)) (w_store w) (t_ns t) (t_sources t) [] false = ScOk cfg retry ->
     render (t_code t) cfg (w_env w) = RTmplErr ->
     target_writes (p_evs r) = [] /\ p_err r = 0 /\ p_requeue r = rq_of iv_opt retry /\
     exists t', w_tmpl w' = Some t' /\ t_invalid t' = 2.
 Proof. exact (fun code render scope_of iv_res iv_opt w0 ss =>
-                @unparsable_no_write code render scope_of iv_res iv_opt (final render scope_of iv_res iv_opt w0 ss)). Qed.
+                @unparsable_no_write code render scope_of iv_res iv_opt (final render scope_of ns_escalation iv_res iv_opt w0 ss)). Qed.
 Print Assumptions C18_unparsable_no_write.
 
 (** A template text that fails on every input never writes, whatever the sources; Invalid is reported. *)
 Theorem C18_unparsable_never_writes :
   forall (code : Type) (render : code -> data -> N -> rres) (scope_of : N -> option bool) (iv_res iv_opt : N)
          (w0 : world code) (ss : list (step code)) (t : tmpl code) (w' : world code) (r : pres),
-    let w := final render scope_of iv_res iv_opt w0 ss in
-    w_tmpl w = Some t -> t_del t = false -> pass render scope_of iv_res iv_opt w = (w', r) ->
+    let w := final render scope_of ns_escalation iv_res iv_opt w0 ss in
+    w_tmpl w = Some t -> t_del t = false -> pass render scope_of ns_escalation iv_res iv_opt w = (w', r) ->
     (forall cfg env, render (t_code t) cfg env = RTmplErr) ->
     target_writes (p_evs r) = [] /\ p_err r = 0 /\
     exists t', w_tmpl w' = Some t' /\ (t_invalid t' = 1 \/ t_invalid t' = 2).
 Proof. exact (fun code render scope_of iv_res iv_opt w0 ss =>
-                @unparsable_never_writes code render scope_of iv_res iv_opt (final render scope_of iv_res iv_opt w0 ss)). Qed.
+                @unparsable_never_writes code render scope_of iv_res iv_opt (final render scope_of ns_escalation iv_res iv_opt w0 ss)). Qed.
 Print Assumptions C18_unparsable_never_writes.
 
 (** Boundary of the clause: a template whose OUTPUT is not YAML writes nothing either, but this is
@@ -128,102 +128,114 @@ Print Assumptions C18_unparsable_never_writes.
 Theorem C18_nonyaml_no_write :
   forall (code : Type) (render : code -> data -> N -> rres) (scope_of : N -> option bool) (iv_res iv_opt : N)
          (w0 : world code) (ss : list (step code)) (t : tmpl code) (w' : world code) (r : pres),
-    let w := final render scope_of iv_res iv_opt w0 ss in
-    w_tmpl w = Some t -> t_del t = false -> pass render scope_of iv_res iv_opt w = (w', r) ->
+    let w := final render scope_of ns_escalation iv_res iv_opt w0 ss in
+    w_tmpl w = Some t -> t_del t = false -> pass render scope_of ns_escalation iv_res iv_opt w = (w', r) ->
     forall cfg retry,
     scan scope_of (pfbad scope_of (t_ns t)) (w_store w) (t_ns t) (t_sources t) [] false = ScOk cfg retry ->
     render (t_code t) cfg (w_env w) = RYamlErr -> target_writes (p_evs r) = [] /\ p_err r = 1.
 Proof. exact (fun code render scope_of iv_res iv_opt w0 ss =>
-                @nonyaml_no_write code render scope_of iv_res iv_opt (final render scope_of iv_res iv_opt w0 ss)). Qed.
+                @nonyaml_no_write code render scope_of iv_res iv_opt (final render scope_of ns_escalation iv_res iv_opt w0 ss)). Qed.
 Print Assumptions C18_nonyaml_no_write.
 
-(** namespace_bound. The clause as stated ("a source or target outside the template's namespace is not
-    label-patched, the target stays unwritten, Invalid is reported") is REFUTED for the faithful model:
-    NamespaceEscalation.Check returns as soon as the object's namespace equals the owner's, before it
-    looks at the scope of the kind (namespace_escalation_protection.go:89-96). Witness: a namespaced
-    ObjectTemplate in namespace 1 with the source {kind 3 (cluster-scoped), namespace 1, name 1}: the pass
-    watches the cluster-scoped kind, label-patches the cluster-scoped object 3/-/1 (outside the bounds),
-    copies its data into a ConfigMap in namespace 1 and reports no Invalid. Replayed on the real
-    controller by checks/C18.py (corpus entry 2; finding in known_findings.json). *)
-Theorem C18_namespace_bound_refuted :
+(** namespace_bound, in full: a pass of a NAMESPACED ObjectTemplate (t_ns t <> 0)
+    - label-patches only objects inside the bounds (namespaced kind, the template's namespace),
+    - asks the dynamic cache to watch namespaced kinds only (no cluster-wide informer on a cluster-scoped kind),
+    - writes only inside the bounds, and whatever it writes was collected from sources none of which is
+      cluster-scoped or in another namespace (no read-through),
+    - a source that is cluster-scoped or in another namespace stops the pass: nothing written, no error
+      returned, Invalid=True/SourceError reported, and that source is not label-patched,
+    - a rendered target that is cluster-scoped or in another namespace: nothing written, no error returned,
+      Invalid=True/SourceError reported.
+    ([oob] = outside the bounds: other namespace, or not a namespaced kind.) *)
+Theorem C18_namespace_bound :
+  forall (code : Type) (render : code -> data -> N -> rres) (scope_of : N -> option bool) (iv_res iv_opt : N)
+         (w0 : world code) (ss : list (step code)) (t : tmpl code) (w' : world code) (r : pres),
+    let w := final render scope_of ns_escalation iv_res iv_opt w0 ss in
+    w_tmpl w = Some t -> t_del t = false -> pass render scope_of ns_escalation iv_res iv_opt w = (w', r) -> t_ns t <> 0 ->
+    let tns := t_ns t in
+    (forall k, In k (label_patches (p_evs r)) -> in_bounds scope_of tns k = true) /\
+    (forall kd, In kd (watch_calls (p_evs r)) -> is_namespaced scope_of kd = true) /\
+    (forall k d, In (k, d) (target_writes (p_evs r)) ->
+       in_bounds scope_of tns k = true /\ forall s, In s (t_sources t) -> oob scope_of tns (s_kind s, s_ns s, s_name s) = false) /\
+    ((exists s, In s (t_sources t) /\ oob scope_of tns (s_kind s, s_ns s, s_name s) = true) ->
+       target_writes (p_evs r) = [] /\ p_err r = 0 /\ (exists t', w_tmpl w' = Some t' /\ t_invalid t' = 1) /\
+       forall s, In s (t_sources t) -> oob scope_of tns (s_kind s, s_ns s, s_name s) = true ->
+                 ~ In (nkey scope_of (src_key tns s)) (label_patches (p_evs r))) /\
+    (forall cfg retry k0 d orefs,
+       scan scope_of (pfbad scope_of tns) (w_store w) tns (t_sources t) [] false = ScOk cfg retry ->
+       render (t_code t) cfg (w_env w) = RObj k0 d orefs -> oob scope_of tns k0 = true ->
+       target_writes (p_evs r) = [] /\ p_err r = 0 /\ exists t', w_tmpl w' = Some t' /\ t_invalid t' = 1).
+Proof. exact (fun code render scope_of iv_res iv_opt w0 ss =>
+                @namespace_bound code render scope_of iv_res iv_opt (final render scope_of ns_escalation iv_res iv_opt w0 ss)). Qed.
+Print Assumptions C18_namespace_bound.
+
+(** The same for every admission failure, template scope and kind table: a source reference that is out of
+    bounds, of an unknown API, or namespaced without namespace under a cluster-scoped template ([src_bad]);
+    likewise a rendered target, or one that carries owner references ([tgt_bad]). *)
+Theorem C18_inadmissible_source_no_write :
+  forall (code : Type) (render : code -> data -> N -> rres) (scope_of : N -> option bool) (iv_res iv_opt : N)
+         (w0 : world code) (ss : list (step code)) (t : tmpl code) (w' : world code) (r : pres),
+    let w := final render scope_of ns_escalation iv_res iv_opt w0 ss in
+    w_tmpl w = Some t -> t_del t = false -> pass render scope_of ns_escalation iv_res iv_opt w = (w', r) ->
+    (exists s, In s (t_sources t) /\ src_bad scope_of (t_ns t) s = true) ->
+    target_writes (p_evs r) = [] /\ p_err r = 0 /\ exists t', w_tmpl w' = Some t' /\ t_invalid t' = 1.
+Proof. exact (fun code render scope_of iv_res iv_opt w0 ss =>
+                @source_out_of_bounds_no_write code render scope_of iv_res iv_opt (final render scope_of ns_escalation iv_res iv_opt w0 ss)). Qed.
+Print Assumptions C18_inadmissible_source_no_write.
+
+Theorem C18_inadmissible_target_no_write :
+  forall (code : Type) (render : code -> data -> N -> rres) (scope_of : N -> option bool) (iv_res iv_opt : N)
+         (w0 : world code) (ss : list (step code)) (t : tmpl code) (w' : world code) (r : pres),
+    let w := final render scope_of ns_escalation iv_res iv_opt w0 ss in
+    w_tmpl w = Some t -> t_del t = false -> pass render scope_of ns_escalation iv_res iv_opt w = (w', r) ->
+    forall cfg retry k0 d orefs,
+    scan scope_of (pfbad scope_of (t_ns t)) (w_store w) (t_ns t) (t_sources t) [] false = ScOk cfg retry ->
+    render (t_code t) cfg (w_env w) = RObj k0 d orefs -> tgt_bad scope_of (t_ns t) k0 orefs = true ->
+    target_writes (p_evs r) = [] /\ p_err r = 0 /\ exists t', w_tmpl w' = Some t' /\ t_invalid t' = 1.
+Proof. exact (fun code render scope_of iv_res iv_opt w0 ss =>
+                @target_out_of_bounds_no_write code render scope_of iv_res iv_opt (final render scope_of ns_escalation iv_res iv_opt w0 ss)). Qed.
+Print Assumptions C18_inadmissible_target_no_write.
+
+(** History of the clause. Against [ns_escalation_v0], the namespace check as it was before aa47ee3 (it
+    returned as soon as the object named the owner's namespace, before looking at the scope of the kind),
+    the clause was REFUTED: a namespaced template in namespace 1 with the source {kind 3 (cluster-scoped),
+    namespace 1, name 1} watched the cluster-scoped kind, label-patched the cluster-scoped object 3/-/1,
+    copied its data into a ConfigMap in namespace 1 and reported no Invalid (finding F-C18, replayed on
+    the real controller at the time). Defect fixed by aa47ee3. *)
+Theorem C18_v0_namespace_bound_refuted :
   exists (w : world unit) t s,
     w_tmpl w = Some t /\ t_del t = false /\ t_ns t <> 0 /\ In s (t_sources t) /\
     oob Witness.scope (t_ns t) (s_kind s, s_ns s, s_name s) = true /\
-    let '(w', r) := pass Witness.render_cm Witness.scope 30 60 w in
+    let '(w', r) := pass Witness.render_cm Witness.scope ns_escalation_v0 30 60 w in
     label_patches (p_evs r) = [(3, 0, 1)] /\ in_bounds Witness.scope (t_ns t) (3, 0, 1) = false /\
     target_writes (p_evs r) = [((1, 1, 100), [(1, 7)])] /\
     watched 3 me (w_watch w') = true /\
     exists t', w_tmpl w' = Some t' /\ t_invalid t' = 0.
-Proof. exact namespace_bound_refuted. Qed.
-Print Assumptions C18_namespace_bound_refuted.
+Proof. exact v0_namespace_bound_refuted. Qed.
+Print Assumptions C18_v0_namespace_bound_refuted.
 
-(** Same cause on the target side: a cluster-scoped target rendered with the template's own namespace
-    passes the check; the API server rejects the create (so nothing is written), the pass returns an
-    error (class 2, retried forever) and Invalid is NOT reported. *)
-Theorem C18_namespace_bound_target_refuted :
+(** Target side of the same defect (fixed by aa47ee3): a cluster-scoped target rendered with the template's own
+    namespace passed the old check; the API server rejected the create, the pass returned an error forever
+    and Invalid was not reported. *)
+Theorem C18_v0_namespace_bound_target_refuted :
   exists (w : world unit) t,
     w_tmpl w = Some t /\ t_del t = false /\ t_ns t <> 0 /\
     (forall cfg env, exists k d, Witness.render_cluster (t_code t) cfg env = RObj k d false /\ oob Witness.scope (t_ns t) k = true) /\
-    let '(w', r) := pass Witness.render_cluster Witness.scope 30 60 w in
+    let '(w', r) := pass Witness.render_cluster Witness.scope ns_escalation_v0 30 60 w in
     p_err r = 2 /\ target_writes (p_evs r) = [] /\ exists t', w_tmpl w' = Some t' /\ t_invalid t' = 0.
-Proof. exact namespace_bound_target_refuted. Qed.
-Print Assumptions C18_namespace_bound_target_refuted.
+Proof. exact v0_namespace_bound_target_refuted. Qed.
+Print Assumptions C18_v0_namespace_bound_target_refuted.
 
-(** Strongest true variants. (a) holds unconditionally: every object a pass writes is inside the bounds
-    (namespaced kind in the template's namespace for a namespaced template) - what is missing above is
-    only the report through Invalid. *)
-Theorem C18_namespace_bound_writes_partial :
-  forall (code : Type) (render : code -> data -> N -> rres) (scope_of : N -> option bool) (iv_res iv_opt : N)
-         (w0 : world code) (ss : list (step code)) (t : tmpl code) (w' : world code) (r : pres),
-    let w := final render scope_of iv_res iv_opt w0 ss in
-    w_tmpl w = Some t -> t_del t = false -> pass render scope_of iv_res iv_opt w = (w', r) ->
-    forall k d, In (k, d) (target_writes (p_evs r)) -> in_bounds scope_of (t_ns t) k = true.
-Proof. exact (fun code render scope_of iv_res iv_opt w0 ss =>
-                @writes_in_bounds code render scope_of iv_res iv_opt (final render scope_of iv_res iv_opt w0 ss)). Qed.
-Print Assumptions C18_namespace_bound_writes_partial.
-
-(** (b) Missing for the full clause: the hypothesis that no source names a cluster-scoped kind with the
-    template's own namespace. Under it every label patch stays inside the bounds ... *)
-Theorem C18_namespace_bound_patches_partial :
-  forall (code : Type) (render : code -> data -> N -> rres) (scope_of : N -> option bool) (iv_res iv_opt : N)
-         (w0 : world code) (ss : list (step code)) (t : tmpl code) (w' : world code) (r : pres),
-    let w := final render scope_of iv_res iv_opt w0 ss in
-    w_tmpl w = Some t -> t_del t = false -> pass render scope_of iv_res iv_opt w = (w', r) ->
-    (forall s, In s (t_sources t) -> src_rootown scope_of (t_ns t) s = false) ->
-    forall k, In k (label_patches (p_evs r)) -> in_bounds scope_of (t_ns t) k = true.
-Proof. exact (fun code render scope_of iv_res iv_opt w0 ss =>
-                @patches_in_bounds code render scope_of iv_res iv_opt (final render scope_of iv_res iv_opt w0 ss)). Qed.
-Print Assumptions C18_namespace_bound_patches_partial.
-
-(** ... and any source outside the bounds (other namespace, cluster-scoped kind, unknown API) stops the
-    pass: nothing written, Invalid=True/SourceError. *)
-Theorem C18_namespace_bound_source_partial :
-  forall (code : Type) (render : code -> data -> N -> rres) (scope_of : N -> option bool) (iv_res iv_opt : N)
-         (w0 : world code) (ss : list (step code)) (t : tmpl code) (w' : world code) (r : pres),
-    let w := final render scope_of iv_res iv_opt w0 ss in
-    w_tmpl w = Some t -> t_del t = false -> pass render scope_of iv_res iv_opt w = (w', r) ->
-    (forall s, In s (t_sources t) -> src_rootown scope_of (t_ns t) s = false) ->
-    (exists s, In s (t_sources t) /\ src_bad scope_of (t_ns t) s = true) ->
-    target_writes (p_evs r) = [] /\ p_err r = 0 /\ exists t', w_tmpl w' = Some t' /\ t_invalid t' = 1.
-Proof. exact (fun code render scope_of iv_res iv_opt w0 ss =>
-                @source_out_of_bounds_no_write code render scope_of iv_res iv_opt (final render scope_of iv_res iv_opt w0 ss)). Qed.
-Print Assumptions C18_namespace_bound_source_partial.
-
-(** (c) A rendered target outside the bounds (or with owner references, or of an unknown API) that is not of
-    the cluster-scoped-kind-with-own-namespace shape: nothing written, Invalid=True/SourceError. *)
-Theorem C18_namespace_bound_target_partial :
-  forall (code : Type) (render : code -> data -> N -> rres) (scope_of : N -> option bool) (iv_res iv_opt : N)
-         (w0 : world code) (ss : list (step code)) (t : tmpl code) (w' : world code) (r : pres),
-    let w := final render scope_of iv_res iv_opt w0 ss in
-    w_tmpl w = Some t -> t_del t = false -> pass render scope_of iv_res iv_opt w = (w', r) ->
-    forall cfg retry k0 d orefs,
-    scan scope_of (pfbad scope_of (t_ns t)) (w_store w) (t_ns t) (t_sources t) [] false = ScOk cfg retry ->
-    render (t_code t) cfg (w_env w) = RObj k0 d orefs ->
-    tgt_bad scope_of (t_ns t) k0 orefs = true -> rootown scope_of (t_ns t) k0 = false ->
-    target_writes (p_evs r) = [] /\ p_err r = 0 /\ exists t', w_tmpl w' = Some t' /\ t_invalid t' = 1.
-Proof. exact (fun code render scope_of iv_res iv_opt w0 ss =>
-                @target_out_of_bounds_no_write code render scope_of iv_res iv_opt (final render scope_of iv_res iv_opt w0 ss)). Qed.
-Print Assumptions C18_namespace_bound_target_partial.
+(** The same two worlds under the check as it is now. *)
+Theorem C18_v0_witnesses_now_rejected :
+  (let '(w', r) := pass Witness.render_cm Witness.scope ns_escalation 30 60 Witness.w_src in
+   label_patches (p_evs r) = [] /\ target_writes (p_evs r) = [] /\ watch_calls (p_evs r) = [] /\ p_err r = 0 /\
+   exists t', w_tmpl w' = Some t' /\ t_invalid t' = 1) /\
+  (let '(w', r) := pass Witness.render_cluster Witness.scope ns_escalation 30 60 Witness.w_tgt in
+   target_writes (p_evs r) = [] /\ watch_calls (p_evs r) = [1] /\ p_err r = 0 /\
+   exists t', w_tmpl w' = Some t' /\ t_invalid t' = 1).
+Proof. exact witnesses_now_rejected. Qed.
+Print Assumptions C18_v0_witnesses_now_rejected.
 
 (** delete_frees: a pass on a deleting ObjectTemplate calls Free, THEN removes the finalizer (if present),
     writes and patches nothing; afterwards the template is in no owner set, other owners are untouched, and
@@ -231,15 +243,15 @@ Print Assumptions C18_namespace_bound_target_partial.
 Theorem C18_delete_frees :
   forall (code : Type) (render : code -> data -> N -> rres) (scope_of : N -> option bool) (iv_res iv_opt : N)
          (w0 : world code) (ss : list (step code)) (t : tmpl code) (w' : world code) (r : pres),
-    let w := final render scope_of iv_res iv_opt w0 ss in
-    w_tmpl w = Some t -> t_del t = true -> pass render scope_of iv_res iv_opt w = (w', r) ->
+    let w := final render scope_of ns_escalation iv_res iv_opt w0 ss in
+    w_tmpl w = Some t -> t_del t = true -> pass render scope_of ns_escalation iv_res iv_opt w = (w', r) ->
     p_evs r = EFree :: (if t_fin t then [EFinRm] else []) /\
     target_writes (p_evs r) = [] /\ label_patches (p_evs r) = [] /\ p_err r = 0 /\ p_requeue r = 0 /\
     (forall kd, watched kd me (w_watch w') = false) /\
     (forall kd o, o <> me -> watched kd o (w_watch w') = watched kd o (w_watch w)) /\
     (t_fin t = true -> w_tmpl w' = None) /\ w_store w' = w_store w.
 Proof. exact (fun code render scope_of iv_res iv_opt w0 ss =>
-                @delete_frees code render scope_of iv_res iv_opt (final render scope_of iv_res iv_opt w0 ss)). Qed.
+                @delete_frees code render scope_of iv_res iv_opt (final render scope_of ns_escalation iv_res iv_opt w0 ss)). Qed.
 Print Assumptions C18_delete_frees.
 
 (** tracks_sources: after a successful pass (no error, no Invalid) the template is in the owner set of
@@ -247,12 +259,12 @@ Print Assumptions C18_delete_frees.
 Theorem C18_tracks_sources :
   forall (code : Type) (render : code -> data -> N -> rres) (scope_of : N -> option bool) (iv_res iv_opt : N)
          (w0 : world code) (ss : list (step code)) (t : tmpl code) (w' : world code) (r : pres),
-    let w := final render scope_of iv_res iv_opt w0 ss in
-    w_tmpl w = Some t -> t_del t = false -> pass render scope_of iv_res iv_opt w = (w', r) ->
+    let w := final render scope_of ns_escalation iv_res iv_opt w0 ss in
+    w_tmpl w = Some t -> t_del t = false -> pass render scope_of ns_escalation iv_res iv_opt w = (w', r) ->
     p_err r = 0 -> (exists t', w_tmpl w' = Some t' /\ t_invalid t' = 0) ->
     Forall (tracked scope_of (t_ns t) w') (t_sources t).
 Proof. exact (fun code render scope_of iv_res iv_opt w0 ss =>
-                @tracks_sources code render scope_of iv_res iv_opt (final render scope_of iv_res iv_opt w0 ss)). Qed.
+                @tracks_sources code render scope_of iv_res iv_opt (final render scope_of ns_escalation iv_res iv_opt w0 ss)). Qed.
 Print Assumptions C18_tracks_sources.
 
 (** ... hence deleting or editing any existing source makes EnqueueWatchingObjects enqueue the
@@ -260,29 +272,28 @@ Print Assumptions C18_tracks_sources.
 Theorem C18_source_change_schedules_pass :
   forall (code : Type) (render : code -> data -> N -> rres) (scope_of : N -> option bool) (iv_res iv_opt : N)
          (w0 : world code) (ss : list (step code)) (t : tmpl code) (w' : world code) (r : pres),
-    let w := final render scope_of iv_res iv_opt w0 ss in
-    w_tmpl w = Some t -> t_del t = false -> pass render scope_of iv_res iv_opt w = (w', r) ->
+    let w := final render scope_of ns_escalation iv_res iv_opt w0 ss in
+    w_tmpl w = Some t -> t_del t = false -> pass render scope_of ns_escalation iv_res iv_opt w = (w', r) ->
     p_err r = 0 -> (exists t', w_tmpl w' = Some t' /\ t_invalid t' = 0) ->
     forall s o, In s (t_sources t) -> lookup (nkey scope_of (src_key (t_ns t) s)) (w_store w') = Some o ->
-      snd (do_step render scope_of iv_res iv_opt w' (SDel (nkey scope_of (src_key (t_ns t) s)))) = OEnq true /\
+      snd (do_step render scope_of ns_escalation iv_res iv_opt w' (SDel (nkey scope_of (src_key (t_ns t) s)))) = OEnq true /\
       forall d lbl, d <> o_data o ->
-        snd (do_step render scope_of iv_res iv_opt w' (SPut (nkey scope_of (src_key (t_ns t) s)) d lbl)) = OEnq true.
+        snd (do_step render scope_of ns_escalation iv_res iv_opt w' (SPut (nkey scope_of (src_key (t_ns t) s)) d lbl)) = OEnq true.
 Proof. exact (fun code render scope_of iv_res iv_opt w0 ss =>
-                @source_change_schedules_pass code render scope_of iv_res iv_opt (final render scope_of iv_res iv_opt w0 ss)). Qed.
+                @source_change_schedules_pass code render scope_of iv_res iv_opt (final render scope_of ns_escalation iv_res iv_opt w0 ss)). Qed.
 Print Assumptions C18_source_change_schedules_pass.
 
 (** quiescent_equals_render: in any history from any initial world, if the last step is a successful pass,
     the stored target equals the template rendered with the sources and environment as they are then
-    ([expected] collects the CURRENT store with the property's own admission notion). Hypotheses: no
-    source of the known-finding shape, and the pass did not write onto one of its own sources. *)
+    ([expected] collects the CURRENT store with the property's own admission notion). Hypothesis: the
+    pass did not write onto one of the template's own sources. *)
 Theorem C18_quiescent_equals_render :
   forall (code : Type) (render : code -> data -> N -> rres) (scope_of : N -> option bool) (iv_res iv_opt : N)
          (w0 : world code) (ss : list (step code)) (t : tmpl code),
-    let wp := final render scope_of iv_res iv_opt w0 ss in
-    let w := final render scope_of iv_res iv_opt w0 (ss ++ [SPass]) in
-    let r := snd (pass render scope_of iv_res iv_opt wp) in
+    let wp := final render scope_of ns_escalation iv_res iv_opt w0 ss in
+    let w := final render scope_of ns_escalation iv_res iv_opt w0 (ss ++ [SPass]) in
+    let r := snd (pass render scope_of ns_escalation iv_res iv_opt wp) in
     w_tmpl wp = Some t -> t_del t = false ->
-    (forall s, In s (t_sources t) -> src_rootown scope_of (t_ns t) s = false) ->
     p_err r = 0 -> (exists t', w_tmpl w = Some t' /\ t_invalid t' = 0) ->
     (forall k d, In (k, d) (target_writes (p_evs r)) -> forall s, In s (t_sources t) -> nkey scope_of (src_key (t_ns t) s) <> k) ->
     exists t' k d o, w_tmpl w = Some t' /\ expected render scope_of t' (w_store w) (w_env w) = Some (k, d) /\
@@ -296,27 +307,26 @@ Print Assumptions C18_quiescent_equals_render.
 Theorem C18_success_settles :
   forall (code : Type) (render : code -> data -> N -> rres) (scope_of : N -> option bool) (iv_res iv_opt : N)
          (w0 : world code) (ss : list (step code)) (t : tmpl code) (w' : world code) (r : pres),
-    let w := final render scope_of iv_res iv_opt w0 ss in
-    w_tmpl w = Some t -> t_del t = false -> pass render scope_of iv_res iv_opt w = (w', r) ->
-    (forall s, In s (t_sources t) -> src_rootown scope_of (t_ns t) s = false) ->
+    let w := final render scope_of ns_escalation iv_res iv_opt w0 ss in
+    w_tmpl w = Some t -> t_del t = false -> pass render scope_of ns_escalation iv_res iv_opt w = (w', r) ->
     p_err r = 0 -> (exists t', w_tmpl w' = Some t' /\ t_invalid t' = 0) ->
     (forall k d, In (k, d) (target_writes (p_evs r)) -> forall s, In s (t_sources t) -> nkey scope_of (src_key (t_ns t) s) <> k) ->
     settled render scope_of w'.
 Proof. exact (fun code render scope_of iv_res iv_opt w0 ss =>
-                @success_settles code render scope_of iv_res iv_opt (final render scope_of iv_res iv_opt w0 ss)). Qed.
+                @success_settles code render scope_of iv_res iv_opt (final render scope_of ns_escalation iv_res iv_opt w0 ss)). Qed.
 Print Assumptions C18_success_settles.
 
 Theorem C18_quiescent_stable :
   forall (code : Type) (render : code -> data -> N -> rres) (scope_of : N -> option bool) (iv_res iv_opt : N)
          (w : world code) (n : nat),
-    settled render scope_of w -> settled render scope_of (final render scope_of iv_res iv_opt w (repeat SPass n)).
+    settled render scope_of w -> settled render scope_of (final render scope_of ns_escalation iv_res iv_opt w (repeat SPass n)).
 Proof. exact @quiescent_stable. Qed.
 Print Assumptions C18_quiescent_stable.
 
 Theorem C18_settled_pass :
   forall (code : Type) (render : code -> data -> N -> rres) (scope_of : N -> option bool) (iv_res iv_opt : N)
          (w w' : world code) (r : pres),
-    settled render scope_of w -> pass render scope_of iv_res iv_opt w = (w', r) ->
+    settled render scope_of w -> pass render scope_of ns_escalation iv_res iv_opt w = (w', r) ->
     settled render scope_of w' /\ p_err r = 0 /\ (exists t', w_tmpl w' = Some t' /\ t_invalid t' = 0) /\
     exists t k d, w_tmpl w = Some t /\ expected render scope_of t (w_store w) (w_env w) = Some (k, d) /\
                   expected render scope_of t (w_store w') (w_env w') = Some (k, d) /\ target_writes (p_evs r) = [(k, d)].
@@ -328,36 +338,36 @@ Print Assumptions C18_settled_pass.
 Theorem C18_history_observation :
   forall (code : Type) (render : code -> data -> N -> rres) (scope_of : N -> option bool) (iv_res iv_opt : N)
          (w : world code) (ss : list (step code)) (s : step code),
-    run render scope_of iv_res iv_opt w (ss ++ [s]) =
-    run render scope_of iv_res iv_opt w ss ++
-    [(snd (do_step render scope_of iv_res iv_opt (final render scope_of iv_res iv_opt w ss) s),
-      fst (do_step render scope_of iv_res iv_opt (final render scope_of iv_res iv_opt w ss) s))].
+    run render scope_of ns_escalation iv_res iv_opt w (ss ++ [s]) =
+    run render scope_of ns_escalation iv_res iv_opt w ss ++
+    [(snd (do_step render scope_of ns_escalation iv_res iv_opt (final render scope_of ns_escalation iv_res iv_opt w ss) s),
+      fst (do_step render scope_of ns_escalation iv_res iv_opt (final render scope_of ns_escalation iv_res iv_opt w ss) s))].
 Proof. exact @run_snoc. Qed.
 Print Assumptions C18_history_observation.
 
-(** The run-time monitor (all nine clauses on every step, except on steps that have the shape of the
-    refuted clause) accepts the model's own run of every scenario: no hypothesis on worlds or histories. *)
+(** The run-time monitor (all nine clauses on every step, no exception) accepts the model's own run of every
+    scenario: no hypothesis on worlds or histories. *)
 Theorem C18_monitor_sound :
   forall (ivres ivopt : N) (w : cworld) (ss : list cstep), monitor (model_case ivres ivopt w ss) = true.
 Proof. exact monitor_sound. Qed.
 Print Assumptions C18_monitor_sound.
 
-(** ... while the monitor without that exception rejects the model's run of the witness. *)
-Theorem C18_monitor_strict_refuted :
-  monitor_strict (model_case 30 60 witness_world [SPass]) = false /\ monitor (model_case 30 60 witness_world [SPass]) = true.
-Proof. exact monitor_strict_refuted. Qed.
-Print Assumptions C18_monitor_strict_refuted.
+(** ... and it is not vacuous: it rejects the run the model makes of the former witness with the old check. *)
+Theorem C18_monitor_rejects_v0 :
+  monitor (v0_case witness_world [SPass]) = false /\ agree (v0_case witness_world [SPass]) = false /\
+  monitor (model_case 30 60 witness_world [SPass]) = true.
+Proof. exact monitor_rejects_v0. Qed.
+Print Assumptions C18_monitor_rejects_v0.
 
 (** Non-vacuity: a history whose last step satisfies every hypothesis of the quiescence theorems
-    (live template, successful pass, no source of the refuted shape, no self-write), with a missing
+    (live template, successful pass, no self-write), with a missing
     optional source on the way (so the optional-retry hypothesis is satisfiable too), and the settled
     state it reaches. *)
 Example C18_hypotheses_satisfiable :
-  let wp := final render_code scope_tbl 30 60 sample_world [SPass; SPut (1, 1, 1) [(1, 6)] false] in
-  let w := final render_code scope_tbl 30 60 sample_world sample_history in
-  let r := snd (pass render_code scope_tbl 30 60 wp) in
+  let wp := final render_code scope_tbl ns_escalation 30 60 sample_world [SPass; SPut (1, 1, 1) [(1, 6)] false] in
+  let w := final render_code scope_tbl ns_escalation 30 60 sample_world sample_history in
+  let r := snd (pass render_code scope_tbl ns_escalation 30 60 wp) in
   (exists t, w_tmpl wp = Some t /\ t_del t = false /\
-     forallb (fun s => negb (src_rootown scope_tbl (t_ns t) s)) (t_sources t) = true /\
      scan scope_tbl (pfbad scope_tbl (t_ns t)) (w_store wp) (t_ns t) (t_sources t) [] false = ScOk [(1, 6)] true) /\
   p_err r = 0 /\ p_requeue r = 60 /\ target_writes (p_evs r) = [((1, 1, 100), [(1, 6)])] /\
   (exists t', w_tmpl w = Some t' /\ t_invalid t' = 0 /\ expected render_code scope_tbl t' (w_store w) (w_env w) = Some ((1, 1, 100), [(1, 6)])).
